@@ -23,7 +23,8 @@ BASE_CFG = """CONSTANTS
   KeyNames <- MCKeyNames
   KeyChars <- MCKeyChars
   TheSchema <- {schema}
-  Family <- {family}
+  FamilyN <- MCFamilyN{family}
+  FamilyAt <- MCFamilyAt{family}
   Generic = {generic}
   SetCands <- MCSetCands{sfx}
   Trees <- MCTrees{sfx}
@@ -38,14 +39,14 @@ VIEW View
 
 
 SFX = {"SchemaA": "", "SchemaV": "V", "SchemaB": "B"}
-FAMILY = {"GFirst": "MCFamily2", "GFirst3": "MCFamily3"}  # generated schema families (see cfgfamily.py)
+FAMILY = {"GFirst": "2", "GFirst3": "3"}  # generated schema families (see cfgfamily.py)
 
 
 def base_cfg(schema, depth):
     fam = FAMILY.get(schema)
     return BASE_CFG.format(
         schema="GFirst" if fam else schema, depth=depth, sfx=SFX.get(schema, "B" if fam else ""),
-        family=fam or "MCNoFamily", generic="TRUE" if fam else "FALSE",
+        family=fam or "1", generic="TRUE" if fam else "FALSE",
     )
 
 
